@@ -181,6 +181,7 @@ def check(db, rep):
         r5.ok('Erase', 'identifier and alias both released', '%s:%d' % (er.file, er.line))
     else:
         r5.violation('Erase', '%s:%d' % (er.file, er.line), 'erasing does not release both the identifier and the alias')
+    _generator_rule(db, rep)
 
 
 def _mutating_events(db, M, f):
@@ -350,3 +351,71 @@ def _switch_labels_reaching_break(f, sw):
         elif st['k'] == 'ReturnStmt':
             pending = []
     return out
+
+
+def _generator_rule(db, rep):
+    """r6: EntityGenerator::NewUID evaluated for every registry content over {1,2} and every scripted sequence of random draws: the identifier
+    returned is not one that was taken, and it is registered (taken afterwards) - otherwise a later AddUID/NewUID can hand it out again."""
+    import itertools
+    from engine.evalmini import Interp, Obj, OutOfFragment, NOT_HANDLED
+    r6 = rep.rule('r6', 'GENERATOR: NewUID returns an identifier that was free and registers it; AddUID registers, FreeUID releases, IsTaken reads the registry', 2)
+    EG = 'ccl::tools::EntityGenerator'
+    f = db.fn(EG + '::NewUID', required=False)
+    if f is None:
+        r6.broken('anchor vanished: EntityGenerator::NewUID')
+        return
+    bad, cases = None, 0
+    try:
+        for taken in ([], [1], [2], [1, 2]):
+            for draws in itertools.product((1, 2), repeat=2):
+                script = list(draws) + [3]
+                cases += 1
+                this = Obj(entities=set(taken), distribution=Obj(__kind__='dist'))
+                pos = [0]
+
+                def on_call(it, fn, n, env, script=script, pos=pos):
+                    if n['k'] == 'CXXOperatorCallExpr' and n.get('op') == '()' and 'distribution' in fn.stmts[n['args'][0]].get('txt', ''):
+                        v = script[min(pos[0], len(script) - 1)]
+                        pos[0] += 1
+                        return v
+                    if (n.get('cs') or '').endswith('Environment::RNG'):
+                        return Obj(__kind__='rng')
+                    return NOT_HANDLED
+                res = Interp(db, on_call=on_call, max_steps=20000).call(f, [], this)
+                why = None
+                if res in taken:
+                    why = 'returns %s, which was already taken' % res
+                elif res not in this['entities']:
+                    why = 'returns %s without registering it: the same identifier can be generated or added again while its owner is alive' % res
+                elif this['entities'] != set(taken) | {res}:
+                    why = 'registry becomes %s' % sorted(this['entities'])
+                if why and bad is None:
+                    bad = 'registry %s, random draws %s: %s' % (taken, script, why)
+    except OutOfFragment as e:
+        r6.broken('EntityGenerator::NewUID outside the evaluable fragment: %s' % e)
+        return
+    if bad:
+        r6.violation('NewUID', '%s:%d' % (f.file, f.line), bad)
+    else:
+        r6.ok('NewUID', 'fresh and registered on %d (registry, draws) cases' % cases, '%s:%d' % (f.file, f.line))
+    # the three small accessors
+    bad = None
+    try:
+        for name, args, before, after, ret in (('AddUID', [5], {1}, {1, 5}, None), ('FreeUID', [1], {1, 5}, {5}, None), ('IsTaken', [1], {1}, {1}, True), ('IsTaken', [2], {1}, {1}, False)):
+            g = db.fn(EG + '::' + name)
+            this = Obj(entities=set(before))
+            r = Interp(db).call(g, args, this)
+            if this['entities'] != after or (ret is not None and bool(r) != ret):
+                bad = bad or '%s(%s) on %s gives registry %s, result %s' % (name, args[0], sorted(before), sorted(this['entities']), r)
+    except OutOfFragment as e:
+        r6.broken('EntityGenerator accessors outside the evaluable fragment: %s' % e)
+        return
+    if bad:
+        r6.violation('registry-accessors', EG, bad)
+    else:
+        r6.ok('registry-accessors', 'AddUID inserts, FreeUID erases, IsTaken tests membership')
+    # membership changes refresh the text-side graphs as well (shared with C07 r1, thesaurus family)
+    r7 = rep.rule('r7', 'VIEWS (shared with C07 r1): a membership change of schema / thesaurus storage is followed by the removal or rebuild in every derived graph', 10)
+    from rules import C07
+    from engine.modset import ModSets
+    C07.refresh_rule(db, rep, r7, ModSets(db), ((C07.SCHEMA, C07._classify_schema, C07._families_schema), (C07.THES, C07._classify_thes, C07._families_thes)))
